@@ -35,6 +35,31 @@ technique = {
  "C20": "dominance rules over the initialisers (sort dominates build, free parsers after all block parsers), comparator normal form, registration-loop direction, bounds-guarded dispatch",
 }
 
+technique_round3 = {
+ "C01": "positive-step rule for computed index advances, owner-guard rule for per-block state resets, completeness/linearity rule for the link-in-link search",
+ "C02": "blank-flag carry-over rule for replacing blocks, fold-case analysis of the HTML block end condition, per-cycle byte-set evaluation of the case-folding loop",
+ "C03": "escape-always-written reachability rule in the sanitiser loops, return-provenance rule for the rewriting utilities, byte-comparison dominance rule for filter membership, stored-value provenance of by-name option setters",
+ "C04": "path enumeration of the URL predicate (false only after all scheme tests failed), stored-value provenance of by-name option setters",
+ "C05": "sibling-loop cycle rule for the link-in-link search, link symmetry inside re-linking helpers",
+ "C06": "pass-through rule for Convert wrappers, allocation-site (ownership) rule for configured-in-place components, package-level objects in the shared-memory class",
+ "C07": "package-level objects in the shared-memory class, ownership rule for configured-in-place components",
+ "C08": "dominance rule for the blank-line skipper, path enumeration of the block quote render function (tags on every path, branch-condition whitelist), span-provenance rule (two different segment bases) for raw source reads in the inline phase",
+ "C09": "owner-guard dominance rule for per-block state resets, fold-case analysis (regexp syntax tree / ToLower dataflow) of the type-1 HTML block end condition",
+ "C10": "stored-value provenance of by-name option setters, allocation-site (ownership) rule for configured-in-place components",
+ "C11": "restore-between-parsers cycle rule in the inline dispatch loop, reachability rule from parent-mutating calls to nil returns, returned-list provenance in the delimiter-row parser",
+ "C12": "foreign-writer table extended to package slices and bytes.NewBuffer ownership",
+ "C13": "link symmetry inside re-linking helpers",
+ "C14": "pass-through rule for Convert wrappers",
+ "C15": "constructor-provenance rule for every context Parse installs",
+ "C16": "must-clear forward dataflow for document accumulators in the AST transformer, dominance rule: returned reference node is appended to the reference list, tree-mutator path rules",
+ "C17": "path enumeration of the table render functions (status constant, tags on every entering/leaving path)",
+ "C18": "field-dependence rule: Value loads no cursor field",
+ "C19": "byte-comparison dominance rule for filter membership, per-cycle byte-set evaluation of the case-folding loop, return-provenance rule for rewriters, interprocedural provenance of parsed code points",
+ "C20": "restore-between-parsers cycle rule, walk-not-bypassed reachability rule in openBlocks, spread/store provenance in the add function",
+}
+for k, v in technique_round3.items():
+    technique[k] = technique[k] + "; " + v
+
 na_reasons = {
  "C02": "conformance is a relation between input structure and the specification's output values; no clause is visible in the shape of the code and the specification text is not available offline (DESIGN.md section 4)",
  "C16": "numbering/back-link consistency depends on counts accumulated across parse phases and on which references survive into the rendered tree; value-level, out of reach of static analysis here (DESIGN.md section 4)",
